@@ -352,6 +352,17 @@ def other_json_routes(r, n):
         x = r.choice(char_starts(doc)[:-1] if route in ("argjson", "jsonargs") else char_starts(doc))
         t = Text().add(doc[:x] + b"\x01" + doc[x:])
         err = {"k": "syntax", "p": x}
+        if route in ("slurpfile", "modjson") and r.random() < 0.6:
+            # a file of SEVERAL values: the fault is in a later one (positions are absolute in the file, whatever the decoder has consumed), more values may follow
+            pre = Text()
+            for _ in range(r.randint(1, 4)):
+                pre.add(gen_doc(r, term).encode() + term.encode(), r.choice([1, 1, 2, 7, 300, 2000]))
+            post = (term + gen_doc(r, term) + term).encode() if r.random() < 0.5 else b""
+            kind = r.choice(["ctl", "ctl", "trunc"])
+            if kind == "trunc" and 0 < x < len(doc) and not post:
+                t, err = Text().extend(pre).add(doc[:x]), {"k": "eof"}
+            else:
+                t, err = Text().extend(pre).add(doc[:x] + b"\x01" + doc[x:] + post), {"k": "syntax", "p": len(pre) + x}
         c = {"kind": "json", "text": t, "err": err, "fault": "route-" + route, "term": term, "style": "route", "size": 0, "cb": []}
         if route == "slurpfile":
             c.update(transport="file", tr="file", name="s.json", args=["-n", "--slurpfile", "a", "@FILE@", "$a"])
@@ -405,6 +416,24 @@ def yaml_cases(r, n):
         bad = r.choice(["bad: [1, 2", "x: }", "y: \"abc", "  - z: ]", "あ: [é, }", "k: {a: 1, ]"])
         pos = r.randint(0, len(lines))
         lines.insert(pos, bad)
+        # byte order marks: at the start of the stream (the one character go-yaml does not count), at the start of later documents and
+        # inside scalars (counted like any other character)
+        if r.random() < 0.4:
+            head = []
+            for j in range(r.randint(0, 3)):
+                head += [("\ufeff" if r.random() < 0.7 else "") + "d%d: %s" % (j, r.choice(["1", '"a\ufeffb"', "[\ufeff1]" if False else "[1]"])), "---"]
+            if r.random() < 0.6:
+                head = ["\ufeff" + head[0]] + head[1:] if head else head
+                if not head:
+                    lines[0] = "\ufeff" + lines[0]
+            if head and r.random() < 0.5:
+                lines[0] = "\ufeff" + lines[0]
+            if r.random() < 0.5:
+                k = r.randrange(0, pos + 1)
+                lines.insert(k, 'w%d: "\ufeffé\ufeff"' % k)
+                pos += 1
+            lines = head + lines
+            pos += len(head)
         known_at = None
         if bad in ("x: }", "あ: [é, }"):
             known_at = len(term.join(lines[:pos] + [""]).encode()) + len(bad.encode()) - 1
